@@ -116,6 +116,17 @@ def run(ctx, replay_case):
                             problem = (f"warning {k_} is not shown where it occurred: {fr[k_] if k_ < len(fr) else '?'} field rows precede its row, "
                                        f"{fe[k_] if k_ < len(fe) else '?'} field events precede the warning")
         if problem is None:
+            # a byte buffer's value column is the text form of its bytes: printable ASCII (0x20..0x7e) as itself, every other byte
+            # as '.' (seed C14j: the translate table rebuilt with 0x7f passing through)
+            for l in prow:
+                q = l.split(" ", 5)
+                if l.startswith("P list[BYTE] ") and len(q) >= 5 and q[4] != "-":
+                    want = "".join(chr(b_) if 32 <= b_ <= 126 else "." for b_ in bytes.fromhex(q[4]))
+                    got = q[5] if len(q) > 5 else ""
+                    if got.strip() != want.strip():
+                        problem = f"value column of the byte buffer {q[3]} is {got!r}, the text form of its bytes {q[4][:40]} is {want!r}"
+                        break
+        if problem is None:
             # bit rows: an attribute word that is not a list element is followed by one bit row per field of its type (pinned
             # layout; TPM_RC's rows depend on the code's format, so only "some"), every other row — list elements included — by none
             # (seed C14f: the elements of `list[TPMA_CC]` got bit rows)
